@@ -10,7 +10,7 @@
 (* without leading zeros -- a projection that needs no knowledge of the    *)
 (* type on the harness side.                                               *)
 (***************************************************************************)
-EXTENDS Wire, TLC, Json, IOUtils
+EXTENDS Wire, CCopy, TLC, Json, IOUtils
 
 Batch == JsonDeserialize(IOEnv.TRACE_FILE)
 Traces == Batch.traces
@@ -138,6 +138,18 @@ Check(tr, e) ==
                 img == StorageV(t, rv)
             IN  IF e.bytes # by THEN "sender-bytes"
                 ELSE IF e.mem # img THEN "mem"
+                ELSE ""
+      [] e.ev = "Copy" ->
+            \* one recorded call BpCopyBufferBits(n, dst, src, di, si): the memory after
+            \* the call is what the CCopy machine (LE or BE variant) leaves
+            LET s0 == CCInit(e.n, e.di, e.si, BitsOf(e.src), BitsOf(e.dst0))
+                s1 == CCRun(s0, e.be)
+                plain == BitCopy(BitsOf(e.dst0), BitsOf(e.src), e.n, e.di, e.si)
+                got == BitsOf(e.dst1)
+            IN  IF got # s1.dst THEN "copy-machine"
+                ELSE IF \E p \in 1..Len(got) : (p - 1 >= e.di /\ p - 1 < e.di + e.n) /\ got[p] # plain[p]
+                     THEN "copy-bits"
+                ELSE IF \E p \in 1..Len(got) : p - 1 < e.di /\ got[p] # plain[p] THEN "copy-clobbers-before"
                 ELSE ""
       [] e.ev = "Size" -> IF e.n # NBytes(t) THEN "size" ELSE ""
       [] e.ev = "Json" ->
